@@ -26,7 +26,7 @@ type KnownFinding struct {
 type PropertyMeta struct {
 	ID          string   `json:"id"`
 	Assumptions []string `json:"assumptions"`
-	Bounded     []string `json:"bounded"` // names of bounded stand-ins to run
+	Bounded     []BoundedSpec `json:"bounded"` // bounded stand-ins to run
 	Required    []string `json:"required_labels"`
 	DeadReturns []string `json:"dead_returns"` // cover queries expected to be unsat (dead code by contract)
 	ExtraFuncs  []string `json:"extra_functions"`
@@ -262,7 +262,12 @@ func runCheck(repo, root, prop, tier string, seed int) *CheckResult {
 	}
 	// language obligations (regex constants) and lemmas
 	obls = append(obls, v.regexObligations(prop)...)
-	obls = append(obls, v.lemmaObligations(prop)...)
+	for _, o := range v.lemmaObligations(prop) {
+		if strings.Contains(o.Label, "thorough") && tier != "thorough" {
+			continue // expensive lemma: thorough tier only (recorded in the scope file's assumptions)
+		}
+		obls = append(obls, o)
+	}
 
 	if len(encErrs) > 0 {
 		sort.Strings(encErrs)
